@@ -325,7 +325,11 @@ def cast_roundtrip(ctx: Ctx):
             from torchjd.aggregation import DualProj, UPGrad
             cls = {"UPGrad": UPGrad, "DualProj": DualProj}[name]
         mk = lambda: cls(pref_vector=torch.tensor(pref, dtype=dtype))      # noqa: E731
-        ref = mk()(J)
+        st0, ref = run_agg(mk(), J)
+        if st0 != "ok":
+            ctx.violation(f"{name}(pref_vector={pref}) raised {ref} on a well-conditioned {dtype} matrix",
+                          {"aggregator": name, "pref": pref, "dtype": str(dtype), "J": J.tolist()})
+            return
         A = mk().to(low).to(dtype)
         st, x = run_agg(A, J)
         ctx.count("cast_roundtrip", name)
